@@ -34,6 +34,9 @@ pub struct Mon {
     pub last_processed: u64,
     /// validators taken out of the registry by a committed RemoveValidator and not added again
     pub removed_validators: BTreeSet<String>,
+    /// the registered validator set according to the deployment and the committed AddValidator /
+    /// RemoveValidator messages (independent of the registry's query answers)
+    pub registry_model: Option<BTreeSet<String>>,
     /// the unbonding period in force: the instantiated value, changed only by a committed
     /// UpdateParams that names the field (E2: the chain's unbonding time equals it)
     pub unbonding_model: Option<u64>,
@@ -67,7 +70,7 @@ pub fn viol(out: &mut Vec<Violation>, prop: &'static str, monitor: &'static str,
 
 impl Mon {
     pub fn new(cfg: &Cfg) -> Mon {
-        Mon { allow_model_valid: true, token_world: cfg.token_world.is_some(), legacy_claims: !cfg.legacy_wait.is_empty() || cfg.legacy_bulk > 0, ..Default::default() }
+        Mon { allow_model_valid: true, token_world: cfg.token_world.is_some(), legacy_claims: !cfg.legacy_wait.is_empty() || cfg.legacy_bulk > 0, registry_model: if cfg.token_world.is_none() { Some((0..cfg.registered_validators).map(|i| cfg.validator_name(i)).collect()) } else { None }, ..Default::default() }
     }
 
     pub fn on_genesis(&mut self, cfg: &Cfg, w: &World, obs: &Obs, rejected: &[(String, String)], stats: &mut Stats, out: &mut Vec<Violation>) {
@@ -110,6 +113,7 @@ impl Mon {
         pricing::c05_peg_fee(self, ctx, stats, out);
         pricing::c06_slashing(self, ctx, stats, out);
         hub::c08_lifecycle(self, ctx, stats, out);
+        misc::c12_registry_model(self, ctx, stats, out);
         misc::c12_plans(self, ctx, stats, out);
         misc::c12_probe(self, ctx, stats, out);
         misc::c13_remove_validator(self, ctx, stats, out);
